@@ -217,21 +217,11 @@ class DataPath:
         return cls(*spec_resolved_parts)
 
     def to_part_specs(self):
-        parts = []
-        for i in self.parts:
-            try:
-                part_spec = i.condition.callable.kwargs["value"]
-            except KeyError:
-                if isinstance(i, MapOrListValue):
-                    part_spec = i.list_condition.callable.kwargs["value"]
-                elif i.CONTAINER_TYPE is Container.MAP:
-                    part_spec = {"type": "map_value"}
-                elif i.CONTAINER_TYPE is Container.LIST:
-                    part_spec = {"type": "list_value"}
-                else:
-                    raise RuntimeError(f"Cannot convert part to a part spec: {i!r}.")
-            parts.append(part_spec)
-        return parts
+        specs = [i.to_spec() for i in self.parts]
+        if not self.is_concrete and not any(isinstance(i, dict) for i in specs):
+            # primitives only would re-generate a concrete path:
+            specs = [i.to_spec(primitive=False) for i in self.parts]
+        return specs
 
     @classmethod
     def from_str(cls, path_str, delimiter="/"):
@@ -646,6 +636,50 @@ class ContainerValue:
             )
         else:
             return cls(condition=condition, label=label)
+
+    def to_spec(self, primitive=True):
+        """Get a part spec from which `DataPath.from_part_specs` re-generates an equivalent
+        part: a primitive, where this part is what the primitive is coerced to, and
+        otherwise a mapping with the JSON-like forms of the conditions."""
+
+        def is_equal_to(condition, cls):
+            return type(condition) is cls and condition.callable.name == "equal_to"
+
+        if primitive and not self.label:
+            if isinstance(self, MapValue) and is_equal_to(self.condition, cnds.Key):
+                value = self.condition.callable.kwargs["value"]
+                if isinstance(value, (str, float)):
+                    return value
+
+            elif (
+                isinstance(self, MapOrListValue)
+                and self.condition.is_null
+                and is_equal_to(self.list_condition, cnds.Index)
+                and is_equal_to(self.map_condition, cnds.Key)
+            ):
+                value = self.list_condition.callable.kwargs["value"]
+                map_value = self.map_condition.callable.kwargs["value"]
+                if (
+                    isinstance(value, int)
+                    and type(map_value) is type(value)
+                    and map_value == value
+                ):
+                    return value
+
+        TYPE_LOOKUP = {
+            MapValue: "map_value",
+            ListValue: "list_value",
+            MapOrListValue: "map_or_list_value",
+        }
+        spec = {"type": TYPE_LOOKUP[type(self)]}
+        for name in ("condition", "list_condition", "map_condition"):
+            condition = getattr(self, name, None)
+            if condition is not None and not condition.is_null:
+                spec[name] = condition.to_json_like()
+        if self.label is not None:
+            spec["label"] = self.label
+
+        return spec
 
     def __truediv__(self, other):
         """Concatenating with other DictValue, ListValue or DataPath objects."""
